@@ -132,6 +132,21 @@ def run(ctx):
             ctx.check(a == ["Severity", "(*r)"], "R05.7", f, "emits-own-severity-and-record", "logger::log is called with %s instead of (Severity, *r)" % a, f)
     for f in [f for f in fns if f.cls == SS and f.kind == "ctor" and not f.flags.get("move_ctor")]:
         txt = " ".join(fmt(e["expr"]) for _, _, e in f.roots())
+        # ... or a member helper of smart_stream that builds the record for it (`r(make_record(tag))`): the helper is handed the tag and sets both
+        # attributes on the record it returns
+        for _, _, e in f.all_elems():
+            x0 = e.get("expr")
+            for n0 in (walk(x0) if isinstance(x0, dict) else []):
+                if n0.get("k") == "call" and any(fmt(ir.unwrap(a0)) == "tag" for a0 in n0.get("args", [])):
+                    for h in [g for g in fns if g.cls == SS and g.has_cfg and g.name == short(n0.get("name") or "") and g.kind not in ("ctor", "dtor")]:
+                        pn0 = h.params[0]["name"] if h.params else "tag"
+                        txt += " " + re.sub(r"\(\*\w+\)", "(*r)", " ".join(fmt(e2["expr"]) for _, _, e2 in h.roots())).replace(", %s)" % pn0, ", tag)")
+        # (a helper spliced into the constructor prepares the record under a local name and initialises r with it)
+        for _, _, e in f.all_elems():
+            if e["kind"] == "init" and short(e.get("field") or "") == "r" and e.get("expr") is not None:
+                m0 = re.fullmatch(r"\(?(?:move\()?([A-Za-z_][\w@]*)\)?\)?", fmt(e["expr"]))
+                if m0:
+                    txt = txt.replace("(*%s)" % m0.group(1), "(*r)")
         ctx.check("set_tag((*r), tag)" in txt, "R05.7", f, "tag-set-from-argument", "the constructor does not set the tag from its argument", f)
         ctx.check(re.search(r"\(\(\*r\), Severity\)", txt) is not None, "R05.7", f, "severity-set-from-template-parameter", "the constructor does not set the record's severity from the template parameter", f)
 
